@@ -76,7 +76,7 @@ MatchesQ(S, q) ==
   IF Len(q) = 1 THEN CmpSet(S, q[1])
   ELSE LET c == q[Len(q)]
            r == MatchesQ(S, SubSeq(q, 1, Len(q) - 1))
-       IN IF c[1] \in {"and", "&&", "AND"} THEN r \cap CmpSet(S, c) ELSE r \cup CmpSet(S, c)
+       IN IF c[1] \in {"and", "&&", "AND", "And"} THEN r \cap CmpSet(S, c) ELSE r \cup CmpSet(S, c)
 
 WellFormedQ(q) == \A i \in 1..Len(q) : q[i][3] # "~!"
 
@@ -244,7 +244,7 @@ QueriesOK(o, A) == "q" \in DOMAIN o => \A i \in 1..Len(o.q) : QueryOK(o.q[i], A,
 \* C13: order of single comparisons / And chains ending on an indexed field; AssignIndex
 NonIncr(s) == \A i \in 1..Len(s) - 1 : s[i] >= s[i + 1]
 OrderedQ(q) == /\ WellFormedQ(q) /\ q[Len(q)][2] \in IndexedF
-               /\ \A i \in 2..Len(q) : q[i][1] \in {"and", "&&", "AND"}
+               /\ \A i \in 2..Len(q) : q[i][1] \in {"and", "&&", "AND", "And"}
 OrderOK(o, A) ==
   /\ "q" \in DOMAIN o => \A i \in 1..Len(o.q) :
        LET q == o.q[i][1]  items == o.q[i][3] IN
@@ -341,13 +341,19 @@ CollectOK(c, H) ==
   LET M == MatchesQ(H.S, H.q)
       f == H.q[Len(H.q)][2]
       res == [i \in 1..Len(c.items) |-> c.items[i][1]]
+      AllOK(lim) == /\ c.c = "ok"
+                    /\ IF OrderedQ(H.q) THEN LimitOK(res, M, H.S, f, lim, c.rev) ELSE UnorderedLimitOK(res, M, lim)
+      FirstOK == /\ (M = {}) => (c.c = "noobject" /\ Len(res) = 0)
+                 /\ (M # {}) => /\ c.c = "ok"
+                               /\ IF OrderedQ(H.q) THEN LimitOK(res, M, H.S, f, 1, c.rev) ELSE UnorderedLimitOK(res, M, 1)
   IN /\ \A i \in 1..Len(c.items) : c.items[i][1] \in DOMAIN H.S => c.items[i][2] = H.S[c.items[i][1]]
-     /\ IF c.what = "one"
-        THEN /\ (M = {}) => (c.c = "noobject" /\ Len(res) = 0)
-             /\ (M # {}) => /\ c.c = "ok"
-                           /\ IF OrderedQ(H.q) THEN LimitOK(res, M, H.S, f, 1, c.rev) ELSE UnorderedLimitOK(res, M, 1)
-        ELSE /\ c.c = "ok"
-             /\ IF OrderedQ(H.q) THEN LimitOK(res, M, H.S, f, c.lim, c.rev) ELSE UnorderedLimitOK(res, M, c.lim)
+     /\ CASE c.what \in {"one", "assignone"} -> FirstOK
+          \* AssignUnique: more than one result is the unexpected-number error, otherwise as AssignOne
+          [] c.what = "assignunique" -> IF Cardinality(M) > 1 THEN c.c = "unexpectedn" /\ Len(res) = 0 ELSE FirstOK
+          \* Expects(n): collecting succeeds iff exactly n objects match; ExpectsZeroOrN(n): iff none or n
+          [] c.what = "expects"   -> IF Cardinality(M) = c.n THEN AllOK(c.lim) ELSE c.c = "unexpectedn" /\ Len(res) = 0
+          [] c.what = "expectszn" -> IF Cardinality(M) \in {0, c.n} THEN AllOK(c.lim) ELSE c.c = "unexpectedn" /\ Len(res) = 0
+          [] OTHER -> AllOK(c.lim)
 
 \* C13 order, Reverse, Limit, One, AssignIndex
 Conf_C13 ==
